@@ -781,7 +781,7 @@ class ClientSession:
 
                         redirects += 1
                         history.append(resp)
-                        if max_redirects and redirects >= max_redirects:
+                        if redirects >= max_redirects:
                             if req._body is not None:
                                 await req._body.close()
                             resp.close()
